@@ -36,7 +36,7 @@ func c09Policies(t *vlib.Target) (map[string]vlib.PolicySpec, []uint64) {
 	// oversize: more than 4096 instructions, conditions on a probe only
 	over := &seccomp.Policy{DefaultAction: vlib.RetAllow, Syscalls: []seccomp.SyscallGroup{{Action: vlib.RetErrno}}}
 	for l := 0; l < 30*8; l++ {
-		over.Syscalls[0].NamesWithCondtions = append(over.Syscalls[0].NamesWithCondtions, seccomp.NameWithConditions{Name: probes[l/30%len(probes)], Conditions: eqList(uint64(1<<40+l*8), 6)})
+		over.Syscalls[0].NamesWithCondtions = append(over.Syscalls[0].NamesWithCondtions, seccomp.NameWithConditions{Name: probes[l/30%len(probes)], Conditions: eqList(uint64(1)<<40+uint64(l*8), 6)})
 	}
 	out["oversize"] = vlib.SpecOf(over, t.Name)
 	// exactly 4096 instructions
